@@ -11,6 +11,13 @@ lines (TAB separated; bits as 0/1, '-' = empty; booleans 0/1):
                                                      -> ok T=<trailing text|-> E=<0|1|-> <len>:<g,g,..>[/<g,g,..>] ...  | err
         one item per printed line: its visible length, the digit groups of the first column and of the second;
         E = escape sequences present (reported only when no_color is set, '-' otherwise)
+  C19 app   <dtype> <bits> <tok1|-> <tok2|-> <width> <show_offset> <lsb0> <no_color>
+                                                     -> as pp: Array(dtype, data=bits).pp(fmt) with bin/oct/hex tokens ('-' = fmt None)
+  C19 appx  <dtype> <bits> <width> <show_offset> <lsb0> <no_color>
+                                                     -> ok roundtrip               (Array.pp() of an int/uint dtype: values read back)
+  every str / repr / reprf / pp / app / appx / arr / arrx case runs under a setting of all four options
+  (no_color, lsb0, bytealigned, mxfp_overflow; those the line does not fix are derived from its hash) and records them
+  before and after the call: a call must not change bitstring.options
   C19 arr   <kind> <n> <bits>                        -> ok [<text of repr(Array(kind+n))>]    (uint int bin oct hex bool)
   C19 arrx  <dtype> <bits>                           -> ok roundtrip               (other unscaled dtypes: implementation + oracle only)
 """
@@ -28,7 +35,7 @@ except Exception as _e:                                    # the extractor faili
     GEN_DATA, GEN_CHANGED = {"error": repr(_e)}, []
 
 FUNCTIONAL = False
-LEVEL_TEXT = ("46 Lean theorems about the transcription of Bits.__str__/_repr/pp (all proved, none partial): parseAuto (strForm l) = l for "
+LEVEL_TEXT = ("47 Lean theorems about the transcription of Bits.__str__/_repr/pp (all proved, none partial): parseAuto (strForm l) = l for "
               "every bit list of at most 4*MAX_CHARS bits (hex / bin / mixed form, every residue mod 4) under msb0 and lsb0, longer values "
               "end in '...' after the hex of the leading 1000 bits, eval of the repr text gives back class, bits and pos and a truncated "
               "repr ends with the true length; the pp layout (groups per line from width, offset column, trailing bits, the ungrouped "
@@ -39,7 +46,7 @@ LEVEL_TEXT = ("46 Lean theorems about the transcription of Bits.__str__/_repr/pp
               "sizes are re-extracted from the source each run and tied to the model by generated obligations. Correspondence: str/repr "
               "for lengths 0..70, 990..1010 and beyond x 4 classes x pos x msb0/lsb0 (+ every value of the 1-3 tail bits), file-backed "
               "repr, literal parser, pp over format pairs x group sizes x widths 0..200 x separators x show_offset x lsb0 x no_color, "
-              "Array.__repr__ (incl. more than 1000 trailing bits). Three defects found by this check were fixed in /repo (55378c7, 059409d, 19a4a37); no known finding remains.")
+              "Array.__repr__ (incl. more than 1000 trailing bits), Array.pp with bin/oct/hex formats whose unit is smaller than, equal to or larger than the item size (theorem arrayPP_eq_pp reduces it to Bits.pp) and of int/uint dtypes; every call is followed by a check that bitstring.options (no_color, lsb0, bytealigned, mxfp_overflow) are unchanged. Three defects found by this check were fixed in /repo (55378c7, 059409d, 19a4a37); no known finding remains.")
 LEVEL_NOTE = ("Trusted: Lean kernel (+propext, Classical.choice, Quot.sound); harness/extract_C19.py; the correspondence harness and its "
               "parser of pp output; bitarray's ba2hex/ba2base/to01 are modelled as digit strings; eval of a repr text is modelled by a "
               "hand-written parser (parseRepr / evalFileRepr). Array.__repr__ is modelled for int/uint/bin/oct/hex/bool items only; "
@@ -81,6 +88,35 @@ def _alt(cls, bits):
     """The same value reached by another route (a slice of a longer store, so with a bit offset)."""
     k = CLASSES[cls]
     return k(bin="1" + bits + "0")[1:len(bits) + 1]
+
+
+def _optvals(line, lsb0=None, nc=None, plain=False):
+    """A full setting of bitstring.options for a case: what the line fixes, the rest from its hash."""
+    h = int(case_hash(line), 16)
+    return dict(lsb0=bool(h & 8) if lsb0 is None else lsb0, no_color=bool(h & 1) if nc is None else nc,
+                bytealigned=False if plain else bool(h & 2), mxfp_overflow="saturate" if plain or not h & 4 else "overflow")
+
+
+def _snap():
+    o = bitstring.options
+    return (bool(o.no_color), bool(o.lsb0), bool(o.bytealigned), o.mxfp_overflow)
+
+
+def _opts_msg(extra):
+    if "opts" in extra and extra["opts"][0] != extra["opts"][1]:
+        return "the call changed bitstring.options (no_color, lsb0, bytealigned, mxfp_overflow): %s -> %s" % extra["opts"]
+    return None
+
+
+def _array(dt, bits):
+    a = bitstring.Array(dt)
+    a.data = BitArray(bin=bits) if bits else BitArray()
+    return a
+
+
+def _dtype_size(dt):
+    m = re.match(r"^(uint|int|hex|bin|oct)(\d+)$", dt)
+    return m.group(1), int(m.group(2))
 
 
 # ---------------------------------------------------------------------------------------------- independent references
@@ -147,7 +183,7 @@ def _split_groups(col, c, sep, lsb0):
         pos += len(sep)
 
 
-def parse_pp(raw, two, lsb0, show_offset, sep, cpgs, grouped):
+def parse_pp(raw, two, lsb0, show_offset, sep, cpgs, grouped, array=False):
     """-> (header_cls, header_len, trailing_text|None, [(vislen, [groups1], [groups2]|None)]) or a str saying what is wrong."""
     vis = ESC_RE.sub("", raw)
     if "\x1b" in vis:
@@ -157,7 +193,10 @@ def parse_pp(raw, two, lsb0, show_offset, sep, cpgs, grouped):
     lines = vis[:-1].split("\n")
     if len(lines) < 2:
         return "too few lines"
-    m = re.match(r"^<(\w+), fmt='([^']*)', length=(\d+) bits> \[$", lines[0])
+    if array:
+        m = re.match(r"^<(\w+) (?:fmt|dtype)='([^']*)', length=(\d+), itemsize=\d+ bits, total data size=\d+ bytes> \[$", lines[0])
+    else:
+        m = re.match(r"^<(\w+), fmt='([^']*)', length=(\d+) bits> \[$", lines[0])
     if not m:
         return "bad header %r" % lines[0]
     foot = lines[-1]
@@ -171,7 +210,9 @@ def parse_pp(raw, two, lsb0, show_offset, sep, cpgs, grouped):
     for ln in lines[1:-1]:
         body = ln
         if show_offset:
-            mm = re.match(r"^(.*) :(\d+) *$", ln, re.S) if lsb0 else re.match(r"^( *\d+): (.*)$", ln, re.S)
+            # (Array.pp passes lsb0=False for the offset separator, so under lsb0 its offset column reads ': n' on the right)
+            mm = (re.match(r"^(.*): (\d+) *$" if array else r"^(.*) :(\d+) *$", ln, re.S) if lsb0
+                  else re.match(r"^( *\d+): (.*)$", ln, re.S))
             if not mm:
                 return "no offset in %r" % ln
             body = mm.group(1) if lsb0 else mm.group(2)
@@ -212,6 +253,68 @@ def default_pair(a, b):
     return g // 2 if g >= 24 else g
 
 
+def _app_shape(f):
+    """Reference reading of Array.pp's format: (fmt1, n1, fmt2|None, n2, group size, token_error).
+    fmt None ('-') is the Array's own dtype; the group size is the first given length, else the dtype's item size."""
+    kind, size = _dtype_size(f[2])
+    if f[4] == "-":
+        a, n1, b, n2 = kind, size, None, None
+    else:
+        a, n1 = parse_tok(f[4])
+        b, n2 = (None, None) if f[5] == "-" else parse_tok(f[5])
+    n = n1 if n1 is not None else (n2 if n2 is not None else size)
+    tok_err = (n1 is not None and n1 % BPC[a] != 0) or (b is not None and n2 is not None and n2 % BPC[b] != 0) or \
+              (n1 is not None and n2 is not None and n1 != n2) or n == 0
+    return a, n1, b, n2, n, tok_err
+
+
+def _pp_result(raw, exc, extra, a, b, n, lsb0, so, sep, nc, array):
+    """Canonical output of a pp / Array.pp call from what it wrote (raw) or raised (exc)."""
+    extra["raw_len"] = len(raw)
+    if exc is not None:
+        extra["exc"] = exc
+        return "err" if exc in DOCUMENTED else "err " + exc
+    extra["esc"] = "\x1b" in raw
+    # the group size is needed to cut a separator-less column into groups: explicit, the documented default
+    # of a single format, or the rule for two formats without a length
+    grouped = n != 0
+    g = n if n else (DEFAULT_SINGLE[a] if b is None else default_pair(a, b))
+    if not grouped:
+        g = 0
+    cp = [g // BPC[a]] + ([g // BPC[b]] if b else [])
+    res = parse_pp(raw, b is not None, lsb0, so, sep, cp, grouped, array)
+    if not isinstance(res, str) and grouped and res[3]:
+        allg = [x for (_l, g1, _g2) in res[3] for x in g1]
+        if not all(len(x) == cp[0] for x in allg[:-1]):     # every group but the last listed is full
+            res = "no consistent group size"
+    if isinstance(res, str):
+        extra["raw"] = raw[:400]
+        return "unparsable " + res
+    extra["group_bits"] = g
+    hcls, hlen, trailing, lines = res
+    extra["header"] = (hcls, hlen)
+    extra["lines"] = lines
+    extra["trailing"] = trailing
+    items = ["T=" + (trailing if trailing is not None else "-"),
+             "E=" + (("1" if extra["esc"] else "0") if nc else "-")]
+    for (ln, g1, g2) in lines:
+        items.append("%d:%s%s" % (ln, ",".join(g1), "" if g2 is None else "/" + ",".join(g2)))
+    return "ok " + " ".join(items)
+
+
+def model_line(line):
+    """The model driver reads Array.pp cases with the dtype resolved (item size; fmt None = the dtype's token);
+    the value-printing Array.pp cases have no model (constant answer)."""
+    f = line.split(SEP)
+    if f[1] == "app":
+        kind, size = _dtype_size(f[2])
+        t1 = "%s:%d" % (kind, size) if f[4] == "-" else f[4]
+        return SEP.join(["C19", "app", str(size), f[3], t1, f[5]] + f[6:])
+    if f[1] == "appx":
+        return SEP.join(["C19", "arrx", f[2], f[3]])
+    return line
+
+
 # ---------------------------------------------------------------------------------------------- execute
 def execute(line):
     f = line.split(SEP)
@@ -219,8 +322,10 @@ def execute(line):
     if op == "str":
         cls, bits, lsb0 = f[2], unwire(f[3]), f[4] == "1"
         s = _mk(cls, bits)
-        with options(lsb0=lsb0):
+        with options(**_optvals(line, lsb0=lsb0)):
+            before = _snap()
             out = guarded(lambda: str(s), _enc)
+            extra["opts"] = (before, _snap())
             extra["again"] = guarded(lambda: str(s), _enc)
             extra["alt"] = guarded(lambda: str(_alt(cls, bits)), _enc)
             extra["reparsed"] = guarded(lambda: Bits(str(s)), wire) if len(bits) <= 1000 else None
@@ -229,8 +334,10 @@ def execute(line):
     elif op == "repr":
         cls, bits, pos, lsb0 = f[2], unwire(f[3]), int(f[4]), f[5] == "1"
         s = _mk(cls, bits, pos)
-        with options(lsb0=lsb0):
+        with options(**_optvals(line, lsb0=lsb0)):
+            before = _snap()
             out = guarded(lambda: repr(s), _enc)
+            extra["opts"] = (before, _snap())
 
             def ev():
                 o = eval(repr(s), dict(_ns()))
@@ -257,7 +364,10 @@ def execute(line):
             if cls in ("ConstBitStream", "BitStream"):
                 s.pos = pos
             cur = s.bin
-            out = guarded(lambda: repr(s).replace(repr(path), "'F'"), _enc)
+            with options(**_optvals(line, lsb0=False)):
+                before = _snap()
+                out = guarded(lambda: repr(s).replace(repr(path), "'F'"), _enc)
+                extra["opts"] = (before, _snap())
 
             def ev():
                 o = eval(repr(s), dict(_ns()))
@@ -286,7 +396,8 @@ def execute(line):
         pos = (len(bits) // 2) if cls in ("ConstBitStream", "BitStream") else 0
         s = _mk(cls, bits, pos)
         st = io.StringIO()
-        with options(lsb0=lsb0, no_color=nc):
+        with options(**_optvals(line, lsb0=lsb0, nc=nc)):
+            before = _snap()
             try:
                 s.pp(fmt, width=width, sep=sep, show_offset=so, stream=st)
                 raw, exc = st.getvalue(), None
@@ -294,52 +405,73 @@ def execute(line):
                 raw, exc = st.getvalue(), "Internal:RecursionError"
             except Exception as e:                          # noqa: BLE001
                 raw, exc = st.getvalue(), err_name(e)
+            extra["opts"] = (before, _snap())
         extra["after"], extra["pos_after"], extra["pos"] = wire(s), getattr(s, "pos", None), pos
-        extra["raw_len"] = len(raw)
-        if exc is not None:
-            extra["exc"] = exc
-            out = "err" if exc in DOCUMENTED else "err " + exc
+        out = _pp_result(raw, exc, extra, a, b, n, lsb0, so, sep, nc, False)
+    elif op == "app":
+        dt, bits, t1, t2 = f[2], unwire(f[3]), f[4], f[5]
+        width, so, lsb0, nc = int(f[6]), f[7] == "1", f[8] == "1", f[9] == "1"
+        fmt = None if t1 == "-" else (t1 if t2 == "-" else t1 + ", " + t2)
+        a, n1, b, n2, n, _ = _app_shape(f)
+        arr = _array(dt, bits)
+        st, st2 = io.StringIO(), io.StringIO()
+        with options(**_optvals(line, lsb0=lsb0, nc=nc)):
+            before = _snap()
+            try:
+                arr.pp(fmt, width=width, show_offset=so, stream=st)
+                raw, exc = st.getvalue(), None
+            except RecursionError:
+                raw, exc = st.getvalue(), "Internal:RecursionError"
+            except Exception as e:                          # noqa: BLE001
+                raw, exc = st.getvalue(), err_name(e)
+            extra["opts"] = (before, _snap())
+            # a Bits.pp right after the Array.pp must still honour no_color
+            guarded(lambda: Bits(bin=bits or "0").pp("bin", stream=st2))
+            extra["esc_after"] = "\x1b" in st2.getvalue()
+            extra["opts2"] = _snap()
+        extra["after"], extra["pos_after"], extra["pos"] = wire(arr.data), None, None
+        out = _pp_result(raw, exc, extra, a, b, n, lsb0, so, " ", nc, True)
+    elif op == "appx":
+        dt, bits = f[2], unwire(f[3])
+        width, so, lsb0, nc = int(f[4]), f[5] == "1", f[6] == "1", f[7] == "1"
+        arr = _array(dt, bits)
+        st, st2 = io.StringIO(), io.StringIO()
+        with options(**_optvals(line, lsb0=lsb0, nc=nc)):
+            before = _snap()
+            res = guarded(lambda: arr.pp(width=width, show_offset=so, stream=st), lambda _v: "")
+            extra["opts"] = (before, _snap())
+            guarded(lambda: Bits(bin=bits or "0").pp("bin", stream=st2))
+            extra["esc_after"] = "\x1b" in st2.getvalue()
+            extra["opts2"] = _snap()
+        raw = st.getvalue()
+        extra["esc"] = "\x1b" in raw
+        extra["after"] = wire(arr.data)
+        vis = ESC_RE.sub("", raw)
+        body = vis.split("\n")[1:-2] if vis.endswith("\n") else None
+        vals, foot = [], (vis.split("\n")[-2] if vis.endswith("\n") else "")
+        if body is None or not res.startswith("ok"):
+            out = res if not res.startswith("ok") else "unparsable no final newline"
         else:
-            extra["esc"] = "\x1b" in raw
-            # the group size is needed to cut a separator-less column into groups: explicit, the documented default
-            # of a single format, or (two formats without a length) read off the output by the oracle
-            grouped = n != 0
-            res = None
-            cand = [n] if n else [DEFAULT_SINGLE[a] if b is None else default_pair(a, b)]
-            if not grouped:
-                cand = [0]
-            for g in cand:
-                cp = [g // BPC[a]] + ([g // BPC[b]] if b else [])
-                res = parse_pp(raw, b is not None, lsb0, so, sep, cp, grouped)
-                if not isinstance(res, str):
-                    ok = True
-                    if grouped and res[3]:
-                        # a candidate group size is right when every group but the last is full
-                        allg = [x for (_l, g1, _g2) in res[3] for x in g1]
-                        ok = all(len(x) == cp[0] for x in (allg[:-1] if not lsb0 else allg[:-1]))
-                    if ok:
-                        extra["group_bits"] = g
+            okp = True
+            for ln in body:
+                if so:
+                    mm = re.match(r"^(.*): (\d+) *$", ln) if lsb0 else re.match(r"^( *\d+): (.*)$", ln)
+                    if not mm:
+                        okp = False
                         break
-                    res = "no consistent group size"
-            if isinstance(res, str):
-                out = "unparsable " + res
-                extra["raw"] = raw[:400]
-            else:
-                hcls, hlen, trailing, lines = res
-                extra["header"] = (hcls, hlen)
-                extra["lines"] = lines
-                extra["trailing"] = trailing
-                items = ["T=" + (trailing if trailing is not None else "-"),
-                         "E=" + (("1" if extra["esc"] else "0") if nc else "-")]
-                for (ln, g1, g2) in lines:
-                    items.append("%d:%s%s" % (ln, ",".join(g1), "" if g2 is None else "/" + ",".join(g2)))
-                out = "ok " + " ".join(items)
+                    ln = mm.group(1) if lsb0 else mm.group(2)
+                vals.append(ln.split())
+            extra["values"] = vals
+            extra["foot"] = foot
+            out = "ok roundtrip" if okp else "unparsable offset"
     elif op == "arr":
         kind, n, bits = f[2], int(f[3]), unwire(f[4])
         dt = kind if kind == "bool" else "%s%d" % (kind, n)
-        a = bitstring.Array(dt)
-        a.data = BitArray(bin=bits) if bits else BitArray()
-        out = guarded(lambda: repr(a), _enc)
+        a = _array(dt, bits)
+        with options(**_optvals(line, lsb0=False, plain=True)):
+            before = _snap()
+            out = guarded(lambda: repr(a), _enc)
+            extra["opts"] = (before, _snap())
 
         def ev():
             o = eval(repr(a), dict(_ns()))
@@ -353,6 +485,10 @@ def execute(line):
         a.data = BitArray(bin=bits) if bits else BitArray()
         vals = a.tolist()
         extra["finite"] = all((not isinstance(v, float)) or math.isfinite(v) for v in vals)
+        with options(**_optvals(line, lsb0=False, plain=True)):
+            before = _snap()
+            guarded(lambda: repr(a))
+            extra["opts"] = (before, _snap())
 
         def ev():
             o = eval(repr(a), dict(_ns()))
@@ -379,6 +515,13 @@ def _truncated_ok(text, bits):
 def oracle(line, out, extra):
     f = line.split(SEP)
     op = f[1]
+    msg = _opts_msg(extra)
+    if msg:
+        return msg
+    if op == "app":
+        return _oracle_pp(f, out, extra, array=True)
+    if op == "appx":
+        return _oracle_appx(f, out, extra)
     if op == "str":
         bits = unwire(f[3])
         if not out.startswith("ok ["):
@@ -467,10 +610,49 @@ def oracle(line, out, extra):
     return "unknown op"
 
 
-def _oracle_pp(f, out, extra):
+def _oracle_appx(f, out, extra):
+    dt, bits = f[2], unwire(f[3])
+    width, so, lsb0, nc = int(f[4]), f[5] == "1", f[6] == "1", f[7] == "1"
+    kind, size = _dtype_size(dt)
+    if extra["after"] != f[3]:
+        return "Array.pp() changed the Array"
+    if out != "ok roundtrip":
+        return "Array.pp() of a %s Array failed or cannot be read back: %s" % (dt, out)
+    if nc and (extra["esc"] or extra["esc_after"]):
+        return "escape sequence in the output of %s although options.no_color is set" % ("Array.pp" if extra["esc"] else "the Bits.pp after Array.pp")
+    if extra["opts2"] != extra["opts"][0]:
+        return "bitstring.options changed after Array.pp + Bits.pp: %s -> %s" % (extra["opts"][0], extra["opts2"])
+    t = len(bits) % size
+    # (an Array's data is a BitArray: under lsb0 its slices count from the right, so the trailing bits are the leading ones)
+    data, trail = (bits[t:], bits[:t]) if lsb0 else (bits[:len(bits) - t], bits[len(bits) - t:])
+    want = []
+    for c in ref_chunks(data, size, lsb0):
+        v = int(c, 2)
+        want.append(str(v - (1 << size) if kind == "int" and c[0] == "1" else v))
+    got = [v for ln in extra["values"] for v in ln]
+    if got != want:
+        return "values printed %s… are not the items of the data %s…" % (got[:6], want[:6])
+    foot = extra["foot"]
+    if t:
+        if not foot.startswith("] + trailing_bits = ") or ref_parse_literals(foot[len("] + trailing_bits = "):]) != trail:
+            return "trailing bits %s not reported faithfully: %r" % (trail, foot)
+    elif foot != "]":
+        return "trailing bits reported though there are none"
+    return None
+
+
+def _oracle_pp(f, out, extra, array=False):
     bits = unwire(f[3])
-    width, sep, so, lsb0, nc = int(f[6]), SEPS[f[7]], f[8] == "1", f[9] == "1", f[10] == "1"
-    a, n1, b, n2, n, tok_err = _pp_shape(f)
+    if array:
+        width, sep, so, lsb0, nc = int(f[6]), " ", f[7] == "1", f[8] == "1", f[9] == "1"
+        a, n1, b, n2, n, tok_err = _app_shape(f)
+        if nc and extra.get("esc_after"):
+            return "escape sequence in the output of the Bits.pp after Array.pp although options.no_color is set"
+        if extra["opts2"] != extra["opts"][0]:
+            return "bitstring.options changed after Array.pp + Bits.pp: %s -> %s" % (extra["opts"][0], extra["opts2"])
+    else:
+        width, sep, so, lsb0, nc = int(f[6]), SEPS[f[7]], f[8] == "1", f[9] == "1", f[10] == "1"
+        a, n1, b, n2, n, tok_err = _pp_shape(f)
     fmts = [a] + ([b] if b else [])
     if extra["after"] != f[3] or extra["pos_after"] not in (None, extra["pos"]):
         return "pp() changed the object"
@@ -486,7 +668,7 @@ def _oracle_pp(f, out, extra):
     if out.startswith("err"):
         if out != "err":
             return "pp raised an undocumented exception: " + out
-        if extra["raw_len"]:
+        if extra["raw_len"] and not array:                  # (Array.pp writes its header line before laying out the data)
             return "pp raised after writing to the stream"
         if tok_err or unrepresentable or group_unprintable:
             return None
@@ -740,6 +922,54 @@ def gen(rng, tier):
         w = rng.choice([rng.randint(0, 200), rng.randint(0, 200), rng.randint(0, 40), 120, 80, rng.randint(201, 400)])
         yield _pp_line(rng, rng.choice(CLASS_NAMES), bits, t1, t2, w, rng.choice(seps + (more_seps if rng.random() < 0.15 else [])),
                        rng.random() < 0.5, rng.random() < 0.35, rng.random() < 0.6)
+    # ------------------------------------------------------------------ Array.pp
+    # formats whose unit is smaller than / equal to / larger than the item size of the Array's own dtype, one and two
+    # formats, fmt None, with and without a length; item counts 0..7 plus trailing bits; all four (lsb0, no_color)
+    dtypes = [("uint", 8), ("uint", 16), ("int", 4), ("uint", 12), ("int", 24), ("hex", 8), ("hex", 16), ("bin", 3), ("bin", 8), ("oct", 6), ("oct", 12)]
+    sizes = [1, 3, 4, 6, 8, 12, 16, 24, 32, 48]
+
+    def app_fmts(kind, size):
+        out = []
+        for nm in ("bin", "oct", "hex"):
+            out.append((nm, "-"))                                        # unit = the dtype's item size
+            for g in sizes:
+                if g % BPC[nm] == 0:
+                    out.append(("%s%s%d" % (nm, ":" if rng.random() < 0.5 else "", g), "-"))
+        for (x, y) in (("bin", "hex"), ("hex", "bin"), ("hex", "oct"), ("oct", "bin"), ("hex", "hex"), ("bin", "bin")):
+            out.append((x, y))
+            for g in (4, 8, 12, 16, 24, 48):
+                if g % BPC[x] == 0 and g % BPC[y] == 0:
+                    out += [("%s%d" % (x, g), "%s:%d" % (y, g)), ("%s:%d" % (x, g), y), (x, "%s%d" % (y, g))]
+        out += [("hex:3", "-"), ("oct:8", "-"), ("hex:0", "-"), ("bin:0", "hex"), ("bin", "hex:0"), ("hex:8", "bin:16"), ("bin:8", "oct:8")]
+        if kind in BPC:
+            out += [("-", "-")] * 4
+        return out
+
+    for (kind, size) in dtypes:
+        dt = "%s%d" % (kind, size)
+        for (t1, t2) in app_fmts(kind, size):
+            for _ in range(3 if big else 1):
+                items = rng.choice([0, 1, 2, 3, 4, 5, 6, 7, 9, 16])
+                tr = rng.choice([0, 0, 0, 1, size // 2, size - 1])
+                bits = rand_bits(rng, items * size + tr)
+                w = rng.choice([0, 10, 20, 40, 60, 80, 120, rng.randint(0, 200)])
+                yield SEP.join(["C19", "app", dt, wire(bits), t1, t2, str(w), str(int(rng.random() < 0.6)),
+                                str(int(rng.random() < 0.4)), str(int(rng.random() < 0.5))])
+    for (t1, t2) in (("hex16", "-"), ("hex:24", "-"), ("bin:16", "hex:16"), ("hex8", "-"), ("hex4", "-"), ("-", "-")):
+        for dt in ("uint8", "hex8"):
+            if t1 == "-" and dt == "uint8":
+                continue
+            for nbytes in (6, 7, 9):
+                for lsb0 in (0, 1):
+                    for nc in (0, 1):
+                        yield SEP.join(["C19", "app", dt, wire(rand_bits(rng, nbytes * 8)), t1, t2, "60", "1", str(lsb0), str(nc)])
+    for (kind, size) in (("uint", 8), ("int", 8), ("uint", 16), ("int", 4), ("uint", 1), ("int", 13), ("uint", 32), ("int", 64)):
+        for items in (0, 1, 2, 5, 9, 30):
+            for lsb0 in (0, 1):
+                for nc in (0, 1):
+                    tr = rng.choice([0, 0, 1, size - 1]) if size > 1 else 0
+                    yield SEP.join(["C19", "appx", "%s%d" % (kind, size), wire(rand_bits(rng, items * size + tr)),
+                                    str(rng.choice([0, 20, 60, 120])), str(int(rng.random() < 0.6)), str(lsb0), str(nc)])
     # ------------------------------------------------------------------ Array.__repr__
     for kind, ns in (("uint", [1, 2, 3, 7, 8, 13, 16, 32, 64, 100]), ("int", [1, 2, 3, 7, 8, 13, 16, 32, 64, 100]),
                      ("bin", [1, 3, 8]), ("oct", [3, 6, 12]), ("hex", [4, 8, 16]), ("bool", [1])):
